@@ -194,6 +194,8 @@ def gout(o, ob, keys=KEYS, naddr=len(ADDRS)):
 
 def run_impl(exe, histories, keys=KEYS, codes=CODES, addrs=ADDRS, timeout=900):
     """histories: list of op lists -> list of driver results (dict with strs, kec, obs) or None"""
+    used = {b"" if o[2] is None else o[2] for h in histories for o in h if o[0] == "setcode"}
+    codes = sorted(set(codes) | used)
     lines = [history_json(h, keys, codes, addrs) for h in histories]
     rc, outs, err = vlib.run_driver(exe, "ledger", lines, timeout=timeout)
     if rc != 0 or len(outs) != len(histories):
@@ -552,6 +554,11 @@ def decide(ctx, exe, name, groups_ops, mode, known, keys=KEYS, nontrivial=None, 
     stats = dict(ok=0, known=0, violation=0, mismatch=0, domain=0)
     if vs is None:
         return stats
+    for i in impl:
+        for o, b in zip(i["ops"], i["obs"]):
+            if o[0] in ("rollback", "commit", "revert", "reopen"):
+                key = "%s_%s" % (o[0], b.get("r"))
+                stats[key] = stats.get(key, 0) + 1
     for gi, (g, v) in enumerate(zip(groups, vs)):
         pb, corr, cfgi = v
         gops = [impl[i]["ops"] for i in g]
